@@ -69,8 +69,20 @@ func genEscInput(rc *RC) []byte {
 	}
 	var b []byte
 	pieces := []string{"a", "b", "z", "0", "2", "5", "c", "C", "f", " ", "\"", "&", "'", "/", ":", "<", ">", "@", "\\", "\\20", "\\5c", "\\5C", "\\2F", "\\3a", "\\40", "\\4", "\\2", "\\zz", "\\\\", "\\ff", "é", "\xff", "\\2\\20"}
+	nearMiss := ch.Chance("workload", 1, 3)
 	for len(b) < n {
-		if ch.Chance("workload", 2, 3) {
+		if nearMiss && ch.Chance("workload", 1, 5) {
+			// a backslash followed by two bytes that are hex digits of a defined sequence or one bit away from one
+			// (control bytes, other case, neighbours, high bit set)
+			d1, d2 := "2345"[ch.Int("workload", 4)], "02567aAcCeEfF"[ch.Int("workload", 13)]
+			if ch.Chance("workload", 1, 3) {
+				d1 ^= 1 << ch.Int("workload", 8)
+			}
+			if ch.Chance("workload", 2, 3) {
+				d2 ^= 1 << ch.Int("workload", 8)
+			}
+			b = append(b, '\\', d1, d2)
+		} else if ch.Chance("workload", 2, 3) {
 			b = append(b, "abcdefghij0123456789"[ch.Int("workload", 20)])
 		} else {
 			b = append(b, pieces[ch.Int("workload", len(pieces))]...)
